@@ -122,4 +122,12 @@ CHECKS["C17"] = dict(
     note="Trusts: generator avoids the cases the statement leaves open (same annotation from two bases; no own definition under several bases). KF-latemark: marker on a later definition of the body.",
     ref="5 C17")
 
+CHECKS["C09"] = dict(
+    category="translation_validation",
+    technique="event semantics of method bodies as a TLA+ operator (Recode.tla Eval + grammar WellFormed); three-way comparison by TLC (Trace_Recode) of Eval, the program run unregistered with recurse / call_next as ordinary callables, and the program registered on a real function",
+    text="Every program of a grammar that places recurse / call_next / own-name calls (positional, starred, keyword, double-starred) in every expression context is rendered in five wrappers and executed twice; TLC computes the expected event sequence (leaf evaluations exactly once, left to right, dispatches with the values they carry), value and exception from the term and compares both recordings with it, checks that the placement was accepted and that traceback line numbers coincide with the unregistered run. A disagreement between Eval and the unregistered run is a machinery error, never a verdict.",
+    note="Trusts: the renderer. The transformation is one pure function, so the family of technique contributes the grammar and the semantics; the decisive comparison is differential. Three refusals of valid placements are known findings (double-starred call sites, call_next(*args), call site inside a comprehension iterable).",
+    ref="5 C09")
+
+NOT_APPLICABLE = {}
 PENDING_REASON = "check not built yet in this round (planned, see DESIGN section 10)"
